@@ -311,6 +311,107 @@ fn soup(rng: &mut Rng) -> String {
     s
 }
 
+
+// ---------------------------------------------------------------------------------
+// non-ASCII text: multi-byte UTF-8 anywhere in the input (nom's multispace / digit1 are ASCII
+// only, so every such character is an ordinary "other" character for the grammar)
+
+const WIDE: [&str; 12] = [
+    "\u{e9}",     // é, 2 bytes
+    "\u{a0}",     // no-break space, 2 bytes
+    "\u{301}",    // combining acute, 2 bytes
+    "\u{663}",    // arabic-indic digit three, 2 bytes
+    "\u{20ac}",   // €, 3 bytes
+    "\u{2003}",   // em space, 3 bytes
+    "\u{ff11}",   // fullwidth digit one, 3 bytes
+    "\u{2028}",   // line separator, 3 bytes
+    "\u{1d538}",  // 𝔸, 4 bytes
+    "\u{1f600}",  // emoji, 4 bytes
+    "\u{1d7d9}",  // mathematical double-struck digit one, 4 bytes
+    "\u{10ffff}", // last scalar value, 4 bytes
+];
+
+/// insert 1..=3 wide characters at random character positions (token boundaries and inside tokens)
+fn sprinkle(s: &str, rng: &mut Rng) -> String {
+    let mut chars: Vec<String> = s.chars().map(|c| c.to_string()).collect();
+    for _ in 0..(1 + rng.below(3)) {
+        let k = rng.below(chars.len() + 1);
+        chars.insert(k, WIDE[rng.below(WIDE.len())].to_string());
+    }
+    chars.concat()
+}
+
+fn wide_soup(rng: &mut Rng) -> String {
+    const A: [&str; 20] = ["<", ">", ":", ":", ",", ",", ".", " ", "\n", "1", "2", "3", "0", "12", "\u{e9}", "\u{20ac}", "\u{1d538}", "\u{a0}", "\u{2003}", "\u{301}"];
+    let mut s = String::new();
+    if rng.chance(2, 3) {
+        s += ["<1.1:", "<1.1:2:", "<1.1:1 1:", "< 2.3 : 3 : ", "<1.1:2 3:"][rng.below(5)];
+    }
+    for _ in 0..(1 + rng.below(24)) {
+        s += A[rng.below(A.len())];
+    }
+    if rng.chance(1, 2) {
+        s.push('>');
+    }
+    s
+}
+
+fn utf8_streams(ctx: &mut Ctx, rng: &mut Rng, pool: &[Tab], n_random: usize) {
+    // (a) valid texts and single-token mutations with wide characters sprinkled in
+    for k in 0..n_random {
+        let src = &pool[rng.below(pool.len())];
+        let base = grammar_text(src, rng, k % 3 == 0);
+        let t = if k % 2 == 0 { base } else { mutate(&base, src.size, rng) };
+        let s = sprinkle(&t, rng);
+        parse_case(ctx, &s, if k % 2 == 0 { "utf8-valid" } else { "utf8-mutated" });
+    }
+    // (b) every byte offset 0..=40(+) of the unparsed remainder straddled by a 2-, 3- and 4-byte
+    //     character, for each place where the grammar can stop
+    let stops = [
+        "",                      // before '<'
+        "<",                     // after '<'
+        "<1.1",                  // after the counts
+        "<1.1:2",                // after the size
+        "<1.1:2 2",              // after the dimension
+        "<1.1:2:2,2",            // inside the op lists
+        "<1.1:2:2,2,2:3",        // inside the degree lists
+        "<1.1:2:2,2,2:3,3",      // before '>'
+        "<1.1:2:2,2,2:3,3>",     // after '>' (trailing text is ignored)
+        "<1.1:1:1,1,1:3,4x",     // an error further left, then padding
+        "<1.1:2:2,2,2:3,3> <1.1:1:1,1,1:3,4",
+    ];
+    for stop in stops {
+        for w in ["\u{e9}", "\u{20ac}", "\u{1d538}"] {
+            let run = w.repeat(48 / w.len() + 3);
+            for k in 0..=40usize {
+                for pad in ['x', ' '] {
+                    let s = format!("{}{}{}", stop, pad.to_string().repeat(k), run);
+                    parse_case(ctx, &s, "utf8-offset");
+                }
+                if k % 8 == 0 {
+                    // the run in the middle, the text going on after it
+                    let s = format!("{}{}{}{}", stop, "0".repeat(k), run, ":2,2,2:3,3>");
+                    parse_case(ctx, &s, "utf8-offset");
+                }
+            }
+        }
+    }
+    // (c) soups over an alphabet with wide characters, and strings of wide characters only
+    for _ in 0..n_random {
+        let s = wide_soup(rng);
+        parse_case(ctx, &s, "utf8-soup");
+    }
+    for w in WIDE {
+        for len in 1..=30usize {
+            parse_case(ctx, &w.repeat(len), "utf8-only");
+        }
+    }
+    for len in 1..=30usize {
+        let s: String = (0..len).map(|_| WIDE[rng.below(WIDE.len())]).collect();
+        parse_case(ctx, &s, "utf8-only");
+    }
+}
+
 fn main() {
     let mut ctx = Ctx::from_args();
     let th = ctx.thorough();
@@ -461,5 +562,7 @@ fn main() {
         let s = soup(&mut rng);
         parse_case(&mut ctx, &s, "soup");
     }
+    // (d) non-ASCII text
+    utf8_streams(&mut ctx, &mut rng, &pool, nstr / 5);
     ctx.finish();
 }
